@@ -1027,6 +1027,9 @@ class Channel(typing.ContextManager):
             chan.sendintr()
         """
         chan_io = self._c
+        if isinstance(chan_io, ChannelBorrowed):
+            # This channel is currently borrowed or was taken: it has nothing to lend.
+            raise chan_io.exception()
         try:
             self._c = ChannelBorrowed()
             new = copy.deepcopy(self)
@@ -1048,6 +1051,9 @@ class Channel(typing.ContextManager):
         from U-Boot to Linux, U-Boot is no longer accessible.
         """
         chan_io = self._c
+        if isinstance(chan_io, ChannelBorrowed):
+            # This channel is currently borrowed or was taken: there is nothing to take.
+            raise chan_io.exception()
         self._c = ChannelTaken()
         new = copy.deepcopy(self)
         new._c = chan_io
